@@ -44,13 +44,13 @@ def scan_trusted(text):
                 # find the name of the item that follows
                 name = ''
                 for j in range(ln_no - 1, min(ln_no + 12, len(lines))):
+                    m = re.search(r'assume_specification\s*(<[^>]*>)?\s*\[\s*(.+?)\s*\]\s*\(', lines[j])
+                    if m:
+                        name = m.group(2).strip()
+                        break
                     m = re.search(r'\b(fn|struct|enum)\s+(\w+)', lines[j])
                     if m:
                         name = m.group(2)
-                        break
-                    m = re.search(r'assume_specification\s*(<[^>]*>)?\s*\[\s*([^\]]+)\]', lines[j])
-                    if m:
-                        name = m.group(2).strip()
                         break
                 found.append((k, name, ln_no))
     return found
